@@ -22,6 +22,19 @@ Theorem C17_validators_agree g st1 st2 p : st1 = st2 -> process g true st1 p = p
 Proof. exact (validators_agree g st1 st2 p). Qed.
 Print Assumptions C17_validators_agree.
 
+(* ... also when proposer and validator are two handler instances with different histories: the model's
+   handlers carry nothing from block to block, so on the same state they build the same proposal and what
+   one builds from a valid commit the other accepts.  (The real handlers are held to this by case [CPeer]:
+   a long-lived instance and a fresh one on one state, see C17_check_sound.) *)
+Theorem C17_proposers_agree g st1 st2 c : st1 = st2 -> prepare g true st1 c = prepare g true st2 c.
+Proof. exact (proposers_agree g st1 st2 c). Qed.
+Print Assumptions C17_proposers_agree.
+
+Theorem C17_coherence_across_instances g st1 st2 c l :
+  st1 = st2 -> c_valid c = true -> prepare g true st1 c = PInj l -> process g true st2 (Tx l c) = ACCEPT.
+Proof. exact (coherence_across_instances g st1 st2 c l). Qed.
+Print Assumptions C17_coherence_across_instances.
+
 (* an accepted proposal carries a valid commit and exactly the lists computed from that commit *)
 Theorem C17_accept_only_signed g st l c :
   process g true st (Tx l c) = ACCEPT -> c_valid c = true /\ check_all g st (c_votes c) = Some l.
@@ -81,6 +94,19 @@ Theorem C17_attestations_from_commit_votes vs o sn sg :
   exists v x a, commit_vote vs v x o /\ In a (x_atts x) /\ sn = a_snap a /\ sg = a_sig a.
 Proof. exact (check_atts_in vs o sn sg). Qed.
 Print Assumptions C17_attestations_from_commit_votes.
+
+(* data is attributed to the validator that sent it: every operator named in the computed lists is the operator
+   that the state gives ([v_op]) for a commit-flag vote of the commit, and a proposal naming any other operator
+   (for instance the one that held the consensus key in an earlier block) is not accepted *)
+Theorem C17_data_attributed_to_senders g st vs l : check_all g st vs = Some l -> attributed vs l = true.
+Proof. exact (check_all_attributed g st vs l). Qed.
+Print Assumptions C17_data_attributed_to_senders.
+
+Theorem C17_foreign_operator_rejected g st l c o :
+  In o (olist (t_ops l) ++ olist (t_vops l) ++ olist (t_aops l)) -> names_sender (c_votes c) o = false ->
+  process g true st (Tx l c) <> ACCEPT.
+Proof. exact (foreign_operator_rejected g st l c o). Qed.
+Print Assumptions C17_foreign_operator_rejected.
 
 (* --- what is written to state is exactly the accepted data ------------------------------------- *)
 (* after the PreBlocker ran on an accepted proposal (over all states, commits, variants; the three loops are
@@ -160,7 +186,9 @@ Print Assumptions C17_short_signature_panics_refuted.
 (* --- the correspondence check is sound ----------------------------------------------------------- *)
 (* an empty issue list means: the recorded implementation outputs contain no panic, Prepare's output is what
    the commit contains, the proposal built from a valid commit was accepted, and every accepted proposal
-   carried a valid commit and exactly that commit's data *)
+   carried a valid commit and exactly that commit's data; for several handler instances on one state ([CPeer]):
+   all instances built the same proposal, it is what the commit contains and names only senders, and every
+   instance accepted every honest proposal (valid commit, exactly its data) *)
 Theorem C17_check_sound c : c17_check c = [] -> case_ok c.
 Proof. exact (c17_check_sound c). Qed.
 Print Assumptions C17_check_sound.
@@ -176,3 +204,20 @@ Proof. exact pipeline_example. Qed.
 Example C17_tamper_example :
   process as_found true st42 (Tx itx0 c42) = REJECT.
 Proof. exact tamper_example. Qed.
+(* non-vacuity of the two-instance case: two instances that both resolve the vote from the state pass ... *)
+Example C17_peer_example : prepare as_found true st_rk c_rk = PInj (itx_rk "oB") /\ c17_check peer_honest = [].
+Proof. exact peer_example. Qed.
+(* ... and an instance that resolves the vote to the operator that held the consensus key in earlier blocks is
+   flagged under every clause family: its proposal differs from the commit's data, names a validator that did not
+   send the data, differs from the other instance's proposal, is accepted by itself, writes the signature into
+   the old operator's slot, and the other instance's honest proposal is rejected by it *)
+Example C17_stale_operator_flagged :
+  c17_check peer_stale =
+  [Spec "injected data differs from what the commit's vote extensions contain";
+   Spec "attribution: injected data is attributed to another validator than the one that sent it";
+   Spec "coherence: two honest proposers on the same state and extended commit built different proposals";
+   Spec "tamper: an accepted proposal differs from what its commit's vote extensions contain";
+   Spec "state: validator-set signature outside the slot of the validator that sent it";
+   Spec "coherence: an honest proposal built on the same state was rejected by an honest validator";
+   Diff "PrepareProposalHandler output"; Diff "ProcessProposalHandler verdict"; Diff "ProcessProposalHandler verdict"].
+Proof. exact stale_operator_flagged. Qed.
